@@ -98,10 +98,10 @@ def parse_output(text):
     for r in results.values():
         raw = '\n'.join(r['raw'])
         if r['status'] == 'FAILED' and not r['failed_checks']:
-            if 'timed out' in raw:
-                r['status'] = 'TIMEOUT'
-            elif 'CBMC failed' in raw:
-                r['status'] = 'ERROR'
+            # no failed check was reported: CBMC was killed (timeout, out of
+            # memory) — with -j the explanatory line is not attributed to
+            # the harness, so classify by the absence of a failed check
+            r['status'] = 'TIMEOUT' if 'timed out' in raw else 'ERROR'
         r['raw'] = raw[-4000:]
     return results
 
